@@ -348,3 +348,83 @@ func VerifC18PendingFail() {
 	}
 	verifReach("done")
 }
+
+// verifGatedConn is an inner connection whose Close takes time: it completes when the
+// harness says so; until then the connection still counts as open.
+type verifGatedConn struct {
+	net.Conn
+	gate chan struct{}
+}
+
+func (c *verifGatedConn) Close() error {
+	<-c.gate
+	verifOpen.Add(-1)
+	return nil
+}
+func (c *verifGatedConn) RemoteAddr() net.Addr { return nil }
+
+// verifGatedConnLsnr hands out connections whose Close is gated.
+type verifGatedConnLsnr struct{ gate chan struct{} }
+
+func (l *verifGatedConnLsnr) Accept() (net.Conn, error) {
+	verifPending.Add(1)
+	verifAssert("open-plus-pending-at-most-stop", uint64(verifPending.Load()+verifOpen.Load()) <= verifStopAt)
+	verifPending.Add(-1)
+	verifOpen.Add(1)
+	return &verifGatedConn{gate: l.gate}, nil
+}
+func (l *verifGatedConnLsnr) Close() error   { return nil }
+func (l *verifGatedConnLsnr) Addr() net.Addr { return nil }
+
+// VerifC18SlowClose: a connection whose close is still in progress (TLS shutdown,
+// lingering socket) is still open: its slot is given back only once the underlying
+// close has returned, so no waiting accept gets a connection while the limit is still
+// held, and the bound on open connections is never exceeded.
+//
+//verif:harness name=H18f-slow-close tier=quick,thorough bounds="2 listeners sharing a limiter, stop in 1..2, resume in 0..stop; stop open connections whose Close blocks until released; one waiting accept on the other listener; one connection is closed (the close hangs, then completes)" reach=done,waiter-released maxpaths=20000 switches=0
+//verif:assume threads switch only when blocked or finished; the hanging close completes when the harness lets it
+func VerifC18SlowClose() {
+	stop := uint64(1 + verifChoice(2))
+	resume := uint64(verifChoice(int(stop) + 1))
+	verifStopAt = stop
+	verifPending.Store(0)
+	verifOpen.Store(0)
+	verifFailNext.Store(false)
+	lim, err := New(&Config{Logger: slogutil.NewDiscardLogger(), Stop: stop, Resume: resume})
+	verifAssume(err == nil)
+	si := &dnsserver.ServerInfo{Name: "s", Addr: "a", Proto: dnsserver.ProtoDoT}
+	gate := make(chan struct{}, 2)
+	la, lb := lim.Limit(&verifGatedConnLsnr{gate: gate}, si), lim.Limit(&verifGatedConnLsnr{gate: gate}, si)
+	var conns []net.Conn
+	for n := 0; n < int(stop); n++ {
+		c, aerr := la.Accept()
+		verifAssert("accept-ok", aerr == nil)
+		conns = append(conns, c)
+	}
+	var doneB atomic.Bool
+	go func() {
+		_, aerr := lb.Accept()
+		verifAssert("waiter-accept-ok", aerr == nil)
+		doneB.Store(true)
+	}()
+	verifRunAll()
+	verifAssert("accept-waits-at-the-limit", !doneB.Load())
+
+	var closed atomic.Bool
+	go func() {
+		_ = conns[verifChoice(len(conns))].Close()
+		closed.Store(true)
+	}()
+	verifRunAll()
+	verifAssert("no-connection-accepted-while-the-close-is-in-progress", !doneB.Load() && !closed.Load())
+	gate <- struct{}{}
+	verifRunAll()
+	verifAssert("close-completes", closed.Load())
+	verifAssert("counter-equals-open-connections", lim.counter.current == uint64(verifOpen.Load()))
+	if doneB.Load() {
+		verifReach("waiter-released")
+	} else {
+		verifAssert("waiting-accept-proceeds-once-accepting", !lim.counter.isAccepting)
+	}
+	verifReach("done")
+}
